@@ -9,14 +9,23 @@ def harnesses():
                       bound='exhaustive over mask, mask2 in [0,64)'))
     return H
 
+def b_harnesses(tier):
+    return [BHarness('T2_entry', 'c03_t2.cpp', 'h_t2_entry', timeout=900, cflags=['-fopenmp'],
+        what='hand-over bookkeeping: entering through classification c, update_photon_position snaps exactly the axes c fixes, each to the wall of ITS OWN axis (n_k*size_k or 0), leaves the free axes untouched, and get_x/y/z_index start in the last/first cell on the fixed axes and compute the index from the coordinate on the free ones',
+        bound='all 27 entry classifications (one path family each), cells per axis symbolic in [1,1024], cell sizes / inverse sizes / position symbolic reals')]
+
 def run(tier, only=None):
     ev = Evidence('C03', tier); work = Work('C03')
     ev.assumptions += ['cmac_error/cmac_assert macros of Error.hpp replaced by checked hooks (reaching cmac_error is a failed obligation)', 'allocation failure outside the claim (--no-malloc-may-fail)']
-    ev.outside += ['numerical equality of estimators between split and unsplit grids for arbitrary packets (real-number clause)', 'layouts > 3 sub-grids per axis']
+    ev.stubs += ['T3: HydroDensitySubGrid constructor -> light initialiser, operator new -> typed static storage (the neighbour table is written by the REAL create_subgrid loop)']
+    ev.outside += ['T4 copies (create_copies / update_original_counters): not built', 'numerical equality of estimators between split and unsplit grids for arbitrary packets (real-number clause)', 'layouts > 3 sub-grids per axis']
     try:
         tv_run(work, 'c03_t1.cpp', [('tv_o2i', 1), ('tv_mask', 1), ('tv_compat', 4)], ev)
-        hs = [h for h in harnesses() if not only or h.name == only]
+        import c07
+        hs = [h for h in harnesses() + c07.t3_harnesses(tier) if not only or h.name.startswith(only)]
         violations, broken = run_engine_a('C03', tier, hs, ev, work)
+        hb = [h for h in b_harnesses(tier) if not only or h.name.startswith(only)]
+        v2, b2 = run_engine_b('C03', tier, hb, ev, work); violations += v2; broken += b2
     except Broken as b:
         violations, broken = [], [str(b)]
     work.clean()
